@@ -38,9 +38,11 @@ def winansi (b : Nat) : Option Nat :=
 
 /-- ToUnicode lookup of one 2-byte code (explicit `bfchar` before `bfrange`). -/
 def toUnicode (base n : Nat) (extras : List (Nat × List Nat)) (code : Nat) : Option (List Nat) :=
-  match lookupAssoc code extras with
+  (match lookupAssoc code extras with
   | some units => utf16Dec units
-  | none => if 1 ≤ code && code ≤ n then utf16Dec [(base + (code - 1)) % 65536] else none
+  | none => if 1 ≤ code && code ≤ n then utf16Dec [(base + (code - 1)) % 65536] else none).bind
+  -- an entry with an empty destination defines no character for the code
+  fun s => if s.isEmpty then none else some s
 
 def codes2 : List Nat → Option (List Nat)
   | [] => some []
@@ -80,21 +82,27 @@ structure SSt where
 
 def bad (r : String) (s : SSt) : SSt := if s.ok then { s with ok := false, why := r } else s
 
+/-- bookkeeping for the listed defects: which of them the operand exercises -/
+def flagS (f : Font) (bs : List Nat) (s : SSt) : SSt :=
+  let s := if !s.fontLocal && !bs.isEmpty then { s with inherited := true } else s
+  if f == .simple && bs.any (fun b => b == 0x93 || b == 0x94) then { s with quotes := true } else s
+
+/-- the characters `cs` are shown: dropped inside an artifact, absorbed by an open `/ActualText`
+    scope, or a run of their own -/
+def emitS (ia : Bool) (cs : List Nat) (s : SSt) : SSt :=
+  if s.mc.any id && !ia then s
+  else match s.atx with
+    | some a => if cs.isEmpty then s else { s with atx := some { a with shown := true } }
+    | none => { s with runs := cs :: s.runs }
+
 def showS (ia : Bool) (bs : List Nat) (s : SSt) : SSt :=
   if !s.inText then bad "show-outside-text-object" s else
   match s.font with
   | none => bad "show-without-font" s
   | some f =>
-    let s := if !s.fontLocal && !bs.isEmpty then { s with inherited := true } else s
-    let s := if f == .simple && bs.any (fun b => b == 0x93 || b == 0x94) then { s with quotes := true } else s
     match chars f bs with
-    | none => bad "code-without-character" s
-    | some cs =>
-      let inArtifact := s.mc.any id
-      if inArtifact && !ia then s
-      else match s.atx with
-        | some a => if cs.isEmpty then s else { s with atx := some { a with shown := true } }
-        | none => { s with runs := cs :: s.runs }
+    | none => bad "code-without-character" (flagS f bs s)
+    | some cs => emitS ia cs (flagS f bs s)
 
 def openScope (art : Bool) (actual : Option (List Nat)) (s : SSt) : SSt :=
   let inArt := art || s.mc.any id
